@@ -257,7 +257,8 @@ reg("C10", "exploration",
     "no mergeable neighbours, entry count = number of maximal runs, content counter) + store report of the builder at quiescent "
     "points (one retained copy per live content, none unreferenced).",
     require={"any": {"archives_minimal": 800, "archives_with_duplicates": 400, "archives_with_runs": 200, "history.0": 50,
-                     "history.1": 50, "history.2": 50, "history.3": 50}},
+                     "history.1": 50, "history.2": 50, "history.3": 50, "foreign_rewrites_minimal": 150,
+                     "foreign_sources_with_duplicate_contents": 100}},
     assumptions=["no two generated contents collide under the library's 64-bit content hash"])
 
 reg("C06", "exploration",
@@ -312,7 +313,7 @@ reg("C12", "exploration",
     "fingerprint of the input; non-trivial = >= 2 tiles/entries. Oracle: the synchronous twin.",
     require={"any": {"writer_reader_combinations_equal": 200, "none_outputs_byte_identical": 50, "async_outputs_validated": 200,
                      "full_opens_equal": 300, "partial_opens_equal": 300, "entry_maps_equal": 300, "directories_equal": 200,
-                     "write_directories_equal": 50, "headers_equal": 1000}})
+                     "write_directories_equal": 50, "headers_equal": 1000, "boundary_twins_equal": 6}})
 
 reg("C13", "exploration",
     "cases = (input, schedule): EVERY composition of n bytes (n <= 16 quick / 20 thorough, 2^(n-1) schedules each) for None-encoded "
@@ -373,7 +374,8 @@ reg("C14", "exploration",
     "consumption + Python gzip for a sample of gzip outputs.",
     require={"any": {"one_shot_inverse_ok": 400, "upstream_decodes_ok": 400, "foreign_streams_decoded": 400,
                      "streamed_writes_decode_upstream": 2000, "streamed_reads_equal": 2000, "async_streams": 800, "compositions": 1000,
-                     "unknown_refused": 8, "python_gzip_files": 3, "payload.empty": 5, "payload.large": 5}},
+                     "unknown_refused": 8, "python_gzip_files": 3, "payload.empty": 5, "payload.large": 5,
+                     "payload.multi_megabyte": 3}},
     phases=c14_phases)
 
 
